@@ -34,6 +34,22 @@ func apkParse(s string) (apkV, bool) {
 	if m[4] != "" {
 		v.rev, v.hasRev = m[4][2:], true
 	}
+	// component magnitudes beyond 2^31 are outside the quantifier (apk-tools itself rejects numbers it cannot hold);
+	// suffix numbers and revisions (dates, timestamps) are claimed up to 18 digits
+	for _, n := range v.nums {
+		if len(n) > 10 || (len(n) == 10 && n > "2147483648") {
+			return apkV{}, false
+		}
+	}
+	runs := []string{v.rev}
+	for _, x := range v.sufs {
+		runs = append(runs, x[1])
+	}
+	for _, n := range runs {
+		if len(strings.TrimLeft(n, "0")) > 18 || len(n) > 24 {
+			return apkV{}, false
+		}
+	}
 	return v, true
 }
 
